@@ -83,3 +83,32 @@ Theorem C07_unchecked_huffman_search : forall w ps tbl ws i j,
       = Ok (p, skipn (N.to_nat (64 * i' + j')) (words_bits ws)) /\
     64 * i' + j' = 64 * i + j + Nlen (p_code p) /\ j' <= 64.
 Proof. exact hsearch_unchecked_eq. Qed.
+
+(* ---- the complete body decoder as the real code runs it (Model/RFast.v: the loop that decodes
+   `guaranteed_safe_num_blocks` blocks with UNCHECKED word reads — unchecked Huffman search,
+   unchecked varint, unchecked offsets, no bounds checks — and falls back to checked reads near
+   the end of the data), on every chunk whose metadata was parsed and whatever bytes follow:
+   every unchecked `words[i]` is inside the buffer and no subtraction, shift, multiplication or
+   addition leaves its range (the model returns Panic for each of these), and the result is what
+   the checked bit-list decoder returns ---- *)
+From QCo.Model Require Import RFile RBody RFast Reader.
+From QCo.Lemmas Require Import RBodyL RFastL.
+
+Theorem C07_fast_path_in_bounds : forall f d s0 mt r c tbl ws tb i j nproc inc limit eoi,
+  parse_meta f d s0 = Ok (mt, r) -> new_cbd f mt = Ok c -> c_table c <> [] ->
+  hfrom (ubits (pdt f d)) (c_table c) = Ok tbl ->
+  bw_ok ws tb -> sane_inc (ubits (pdt f d)) inc -> j <= 64 -> 64 * i + j <= tb ->
+  let w := ubits (pdt f d) in
+  let ps := c_table c in
+  let out := rfa_batch w (phys (pdt f d)) ws tb tbl (rfa_max_bits_per_num_block w ps)
+                       (rfa_max_overshoot_per_num_block ps) (rfa_use_gcd ps)
+                       (c_n c - nproc) inc limit eoi (i, j) in
+  let m := read_batch w tb ps (c_n c - nproc) inc limit eoi (rd_stream ws tb (64 * i + j)) in
+  rb_nums out = b_nums m /\
+  rb_incomplete out = b_incomplete m /\
+  rb_finished out = b_finished m /\
+  rb_status out = b_status m /\
+  b_rest m = rd_stream ws tb (64 * fst (rb_pos out) + snd (rb_pos out)) /\
+  rb_status out <> SPanic /\
+  snd (rb_pos out) <= 64 /\ 64 * fst (rb_pos out) + snd (rb_pos out) <= tb.
+Proof. exact rfa_batch_parsed. Qed.
